@@ -36,10 +36,10 @@ def to_sz(spec):
 
 
 def enumerate_cases(tier, seed):
-    from ..instances import families
+    from ..instances import families, feature_instances
     from .c16 import extra_specs
 
-    specs = [(i.family, i.spec) for i in families(tier, seed)] + extra_specs(tier)
+    specs = [(i.family, i.spec) for i in families(tier, seed)] + [(i.family, i.spec) for i in feature_instances(tier, seed)] + extra_specs(tier)
     # drop near-duplicates of the homopolymer target sweep
     seen = set()
     uniq = []
